@@ -24,6 +24,7 @@ type DriverSpec struct {
 	MaxInflight int         `json:"max_inflight"`
 	IssuePerTick int        `json:"issue_per_tick"`
 	LineSize    uint64      `json:"line_size"` // no request crosses a multiple of this
+	LineStride  uint64      `json:"line_stride"` // distance between consecutive lines (0 = LineSize)
 	AddrBase    uint64      `json:"addr_base"`
 	NumLines    uint64      `json:"num_lines"` // address span = NumLines*LineSize
 	// per-PID: PID p (1..NumPIDs) uses AddrBase + (p-1)*PIDStride
@@ -250,7 +251,11 @@ func (m *driverMW) issue() bool {
 				pid = 1 + int(d.intn(uint64(sp.NumPIDs)))
 			}
 			line := d.intn(sp.NumLines)
-			base := sp.AddrBase + line*sp.LineSize
+			stride := sp.LineStride
+			if stride == 0 {
+				stride = sp.LineSize
+			}
+			base := sp.AddrBase + line*stride
 			if pid > 0 {
 				base += uint64(pid-1) * sp.PIDStride
 			}
@@ -303,7 +308,7 @@ func (m *driverMW) issue() bool {
 		} else {
 			if int(d.intn(100)) < sp.FullPct {
 				// widen to the whole line unless that overlaps
-				base := addr - (addr-sp.AddrBase)%sp.LineSize
+				base := addr - addr%sp.LineSize // AddrBase, LineStride and PIDStride are multiples of LineSize
 				if !m.overlaps(pid, base, sp.LineSize) {
 					addr, n = base, sp.LineSize
 					req.Addr, req.Len = addr, n
